@@ -48,41 +48,8 @@ var ambientAllowed = map[string]string{
 // timeout, which describes how long this client waits, not how long a statement
 // may run on every replica).
 func c01dbTimeout(c *core.Ctx) {
-	fn := c.Fn("C01.d", "http", "QueryParams.DBTimeout")
-	if fn == nil {
-		return
-	}
-	keys := map[string]bool{}
-	others := map[string]bool{}
-	for _, f := range an.WithClosures(fn) {
-		an.Instrs(f, func(in ssa.Instruction) {
-			switch x := in.(type) {
-			case *ssa.Lookup:
-				if s, ok := an.ConstString(x.Index); ok {
-					keys[s] = true
-				} else {
-					keys["<non-constant>"] = true
-				}
-			case ssa.CallInstruction:
-				if id := an.CalleeID(x); strings.HasPrefix(id, "http.QueryParams.") {
-					others[strings.TrimPrefix(id, "http.QueryParams.")] = true
-				}
-			}
-		})
-	}
-	var ks, os []string
-	for k := range keys {
-		ks = append(ks, k)
-	}
-	for o := range others {
-		os = append(os, o)
-	}
-	sort.Strings(ks)
-	sort.Strings(os)
-	c.Sites++
-	c.Result(strings.Join(ks, ",") == "db_timeout" && len(os) == 0, "C01.d", "TABLE", "QueryParams.DBTimeout:reads-only-db_timeout", c.P.Pos(fn.Pos()),
-		"the statement timeout recorded in replicated requests comes from the db_timeout parameter only",
-		fmt.Sprintf("QueryParams.DBTimeout reads parameters {%s} and calls {%s}: a value other than the explicit db_timeout (e.g. the client's overall timeout) is written into the replicated request and enforced by every node on its own clock — a node that is slower at apply or replay time drops the write and diverges", strings.Join(ks, ","), strings.Join(os, ",")), nil)
+	qpReadsOnly(c, "C01.d", "DBTimeout", "db_timeout",
+		"a value other than the explicit db_timeout (e.g. the client's overall timeout) is written into the replicated request and enforced by every node on its own clock — a node that is slower at apply or replay time drops the write and diverges")
 }
 
 func runC01(c *core.Ctx) {
